@@ -12,6 +12,7 @@ import (
 	"sort"
 	"strings"
 	"sync"
+	"time"
 	"unsafe"
 
 	"github.com/foxcpp/maddy/internal/limits"
@@ -173,4 +174,50 @@ func LimClose(g *limits.Group) {
 			bs.Close()
 		}
 	}
+}
+
+// LimTune gives the keyed scopes of the group a small bucket table and the given reap interval (the real
+// constructor fixes them at 20010 buckets / 1 minute; both are exported fields of limiters.BucketSet).
+func LimTune(g *limits.Group, reap time.Duration, maxBuckets int) {
+	gv := reflect.ValueOf(g).Elem()
+	for _, sc := range limScopes {
+		if bs := limField(gv, sc[0]).Interface().(*limiters.BucketSet); bs != nil {
+			bs.ReapInterval = reap
+			bs.MaxBuckets = maxBuckets
+		}
+	}
+}
+
+// LimAdvance is the passage of d of (virtual) time for the bucket tables: BucketSet reads time.Now() itself,
+// so every bucket is made to look d older instead.
+func LimAdvance(g *limits.Group, d time.Duration) {
+	gv := reflect.ValueOf(g).Elem()
+	for _, sc := range limScopes {
+		bs := limField(gv, sc[0]).Interface().(*limiters.BucketSet)
+		if bs == nil {
+			continue
+		}
+		bv := reflect.ValueOf(bs).Elem()
+		lck := limField(bv, "mLck").Addr().Interface().(sync.Locker)
+		lck.Lock()
+		it := bv.FieldByName("m").MapRange()
+		for it.Next() {
+			lu := limField(it.Value().Elem(), "lastUse")
+			lu.Set(reflect.ValueOf(lu.Interface().(time.Time).Add(-d)))
+		}
+		lck.Unlock()
+	}
+}
+
+// LimBuckets counts the buckets of the ip and source scopes.
+func LimBuckets(snap []LimBucket) (ip, source int) {
+	for _, b := range snap {
+		switch b.Scope {
+		case "ip":
+			ip++
+		case "source":
+			source++
+		}
+	}
+	return
 }
